@@ -227,5 +227,9 @@ def gen(rng, nrng, tier):
         nbar = int(nrng.integers(2, 9))
         sll = -float(nrng.uniform(20, 80))
         yield ("win", {"name": "taylor", "N": N, "kw": {"nbar": nbar, "sll": sll}})
+    # default-parameter requests AFTER explicit non-default ones in the same process (defaults must not be remembered)
+    for name in sorted(PARAMS) + ["taylor"]:
+        for N in (8, 9, 33):
+            yield ("win", {"name": name, "N": N, "kw": {}})
     for N in (1, 2, 3, 8, 51, 64):
         yield ("factory", {"N": N})
